@@ -57,7 +57,11 @@ class _Observer:
         self.mon._called(self.acc, sender, old, new, self)
         if self.armed is not None:
             action, self.armed = self.armed, None
-            self.mon._reentrant(self, action)
+            try:
+                self.mon._reentrant(self, action)
+            except Exception as e:       # a fault of the harness' own action must not look like a fault of the library's walk
+                if self.mon.harness_error is None:
+                    self.mon.harness_error = e
 
 
 class NotifyMonitor:
@@ -70,6 +74,8 @@ class NotifyMonitor:
         self.calls: List[Tuple[Any, Any, Any, Any]] = []     # calls during the current update
         self.outside: List[Any] = []                         # calls that happened outside any update
         self.in_update = False
+        self.harness_error: Optional[BaseException] = None
+        self._frames: List[Dict[str, Any]] = []              # one per block update in progress (an observer may start a nested update)
         self.expect_block: Optional[bytes] = None
         self.stats = {"updates": 0, "notifications": 0, "silent_intersecting": 0, "straddling": 0}
         self.extra_calls: Dict[int, List[int]] = {}          # id(accessor) -> indices of additional observers called in this update
@@ -163,17 +169,17 @@ class NotifyMonitor:
     def arm(self, acc, who: int, action: str) -> None:
         """Arm observer `who` (0 = primary) of the item to unwatch itself / the next observer / all from inside its next callback."""
         info = self.watched.get(id(acc))
-        if info is None or not info.get("extra") or not info["active"]:
+        if info is None or not info["active"] or (not info.get("extra") and not action.startswith("write_other:")):
             return
-        obs = ([info["obj"]] + info["extra"])[who % (1 + len(info["extra"]))]
+        obs = ([info["obj"]] + info.get("extra", []))[who % (1 + len(info.get("extra", [])))]
         if obs.idx > 0 and not info["extra_active"][obs.idx - 1]:
             return
         obs.armed = action
 
     def _reentrant(self, obs, action: str) -> None:
         info = self.watched[id(obs.acc)]
-        alln = [info["obj"]] + info["extra"]
-        self.world.result.probe("reentrant_" + action)
+        alln = [info["obj"]] + info.get("extra", [])
+        self.world.result.probe("reentrant_" + action.split(":")[0])
         def off(i: int) -> None:
             if i == 0:
                 info["active"] = False
@@ -182,7 +188,13 @@ class NotifyMonitor:
             if i in info["order"]:
                 info["order"].remove(i)
 
-        if action == "unwatch_all":
+        if action.startswith("write_other:"):
+            # the observer reacts to the change by writing another item of the same structure through the structure's own entry point
+            # (on the spa side the write is applied at once: a block update nested inside the one that is still walking its items)
+            _, pos, val = action.split(":")
+            self.struct.set_value(int(pos), 1, int(val))
+            self.world.result.probe("observer_writes_another_item_during_the_update")
+        elif action == "unwatch_all":
             obs.acc.unwatch_all()
             for i in range(len(alln)):
                 off(i)
@@ -242,7 +254,7 @@ class NotifyMonitor:
                 self.world.note(self.prop, "removed-observer-called", f"{self.label}: item {acc.tag}: observer #{obs.idx} was removed "
                                 f"(re-entrantly, by an earlier observer of the same notification: {self.reentrant_log[-3:]}) but was still called",
                                 sig="removed-observer-called:reentrant")
-            self.extra_calls.setdefault(id(acc), []).append(obs.idx)
+            (self._frames[-1]["extra_calls"] if self._frames else self.extra_calls).setdefault(id(acc), []).append(obs.idx)
             if not self.in_update:
                 self.outside.append((self.world.now(), acc.tag))
             return
@@ -250,7 +262,7 @@ class NotifyMonitor:
             self.world.note(self.prop, "removed-observer-called", f"{self.label}: item {acc.tag}: the primary observer was removed re-entrantly "
                             f"({self.reentrant_log[-3:]}) but was still called", sig="removed-observer-called:reentrant")
         if self.in_update:
-            self.calls.append(rec)
+            (self._frames[-1]["calls"] if self._frames else self.calls).append(rec)
             if self._cur_group is not None:
                 self._cur_group["calls"].append((acc, blk))
         else:
@@ -276,8 +288,8 @@ class NotifyMonitor:
         seglen = len(segment)
         new_block = old_block[:offset] + bytes(segment) + old_block[offset + seglen:]
         self.in_update = True
-        self.calls = []
-        self.extra_calls = {}
+        frame: Dict[str, Any] = {"calls": [], "extra_calls": {}, "nested": []}
+        self._frames.append(frame)
         # items with several observers: registration order and armed re-entrant actions as they are when the update starts
         pre: Dict[int, Any] = {}
         for aid, info in self.watched.items():
@@ -287,7 +299,21 @@ class NotifyMonitor:
         try:
             out = self._orig(offset, segment)
         finally:
-            self.in_update = False
+            self._frames.pop()
+            self.in_update = bool(self._frames)
+            if self._frames:
+                # this update ran inside an observer of an outer update: the outer one is judged around it
+                self._frames[-1]["nested"].append((offset, seglen))
+                self._frames[-1]["nested"].extend(frame["nested"])
+        self.calls = frame["calls"]
+        self.extra_calls = frame["extra_calls"]
+        nested = frame["nested"]
+        if nested:
+            w.result.probe("update_nested_inside_an_update")
+            # what the outer update is answerable for: its own bytes; the nested ones changed theirs on top
+            for (no, nl) in nested:
+                cur = self.struct.status_block
+                new_block = new_block[:no] + cur[no:no + nl] + new_block[no + nl:]
         self.stats["updates"] += 1
         res = w.result
         if self.struct.status_block != new_block:
@@ -305,6 +331,8 @@ class NotifyMonitor:
                     w.note(self.prop, "notification-from-stale-item", f"{self.label}: item {acc.tag} is no longer part of the structure but notified")
                 continue
             intersects = offset < acc.pos + acc.length and acc.pos < offset + seglen
+            if nested and any(no < acc.pos + max(acc.length, 2) and acc.pos < no + nl for (no, nl) in nested):
+                continue        # also changed by a nested update: both updates speak about it, not judged here
             is_temp = type(acc).__name__ == TEMP_CLASS
             o_raw, n_raw = raw_of(acc, old_block), raw_of(acc, new_block)
             if is_temp:
@@ -375,7 +403,7 @@ class NotifyMonitor:
                     res.probe("straddling_update_notified")
                 if sender is not acc:
                     w.note(self.prop, "wrong-sender", f"{ctx}: notification sender is {sender!r}")
-                if blk_at_call != new_block:
+                if blk_at_call != new_block and not (nested and blk_at_call[offset:offset + seglen] == bytes(segment)):
                     w.note(self.prop, "observer-saw-old-block", f"{ctx}: when the observer ran the structure did not hold the new block yet")
                 if not is_temp:
                     eo, en = decode(acc, old_block), decode(acc, new_block)
@@ -388,6 +416,10 @@ class NotifyMonitor:
         return out
 
     def finish(self) -> None:
+        if self.harness_error is not None:
+            from .core import HarnessError
+
+            raise HarnessError(f"re-entrant harness action failed: {self.harness_error!r}")
         if self.outside:
             t, tag = self.outside[0]
             self.world.note(self.prop, "notification-outside-update", f"{self.label}: item {tag} notified at {t:.3f} outside any block update")
